@@ -760,7 +760,11 @@ HARN = os.path.join(ROOT, "harness")
 Effect = namedtuple("Effect", "op name delta need peak rdelta rneed rpeak co proved note codelta noco coerr coerr_nz")
 
 
-EFFECT_VERSION = "effects-v3 unwind34 default-checks"
+EFFECT_VERSION = "effects-v4 unwind14+harness-loops default-checks"
+# loops of the harness itself (construction of the symbolic state) get their own bounds
+HARNESS_LOOPS = ["main.%d:40" % i for i in range(4)] + ["c05_env.%d:70" % i for i in range(14)] + \
+                ["c05_engine_env.%d:70" % i for i in range(8)] + ["c05_init_symbolic.%d:40" % i for i in range(48)] + \
+                ["c05_anchor.%d:70" % i for i in range(2)] + ["c05_pkey_setup.%d:12" % i for i in range(3)]
 
 
 def _harness_hash(prog=None):
@@ -803,8 +807,8 @@ def _noeff(op, name, note):
     return Effect(op, name, None, None, None, None, None, None, None, False, note, None, None, None, None)
 
 
-def _measure(prog, op, wd, lit=None, timeout=300):
-    e = _measure1(prog, op, wd, lit, timeout, 34)
+def _measure(prog, op, wd, lit=None, timeout=600):
+    e = _measure1(prog, op, wd, lit, timeout, 14)
     if not e.proved and "unwinding assertion" in (e.note or ""):
         e2 = _measure1(prog, op, wd, lit, 900, 300)
         if e2.proved:
@@ -820,7 +824,7 @@ def _measure1(prog, op, wd, lit, timeout, unwind):
     if rc != 0:
         return _noeff(op, n.name, "goto-cc failed: " + (o + e)[-800:])
     try:
-        rc, o, e = sh(["cbmc", gb, "--json-ui", "--no-malloc-may-fail", "--unwind", str(unwind),
+        rc, o, e = sh(["cbmc", gb, "--json-ui", "--no-malloc-may-fail", "--unwind", str(unwind), "--unwindset", ",".join(HARNESS_LOOPS),
                        "--unwinding-assertions", "--drop-unused-functions", "--slice-formula"], timeout=timeout)
     except subprocess.TimeoutExpired:
         return _noeff(op, n.name, "cbmc timeout")
@@ -977,8 +981,8 @@ def dup_spec_ok(prog):
         rc, o, e = goto_cc_native(prog, n.op, gb, ["-DC05_EFFECT=1", "-DC05_SPEC_DUP=1"])
         ok = False
         if rc == 0:
-            rc, o, e = sh(["cbmc", gb, "--json-ui", "--no-malloc-may-fail", "--unwind", "34", "--unwinding-assertions",
-                           "--drop-unused-functions", "--slice-formula"], timeout=300)
+            rc, o, e = sh(["cbmc", gb, "--json-ui", "--no-malloc-may-fail", "--unwind", "14", "--unwindset", ",".join(HARNESS_LOOPS),
+                           "--unwinding-assertions", "--drop-unused-functions", "--slice-formula"], timeout=300)
             try:
                 for m in json.loads(o):
                     if "result" in m:
@@ -1493,8 +1497,8 @@ def over_spec_ok(prog):
         rc, o, e = goto_cc_native(prog, n.op, gb, ["-DC05_EFFECT=1", "-DC05_SPEC_OVER=1"])
         ok = False
         if rc == 0:
-            rc, o, e = sh(["cbmc", gb, "--json-ui", "--no-malloc-may-fail", "--unwind", "34", "--unwinding-assertions",
-                           "--drop-unused-functions", "--slice-formula"], timeout=300)
+            rc, o, e = sh(["cbmc", gb, "--json-ui", "--no-malloc-may-fail", "--unwind", "14", "--unwindset", ",".join(HARNESS_LOOPS),
+                           "--unwinding-assertions", "--drop-unused-functions", "--slice-formula"], timeout=300)
             try:
                 for m in json.loads(o):
                     if "result" in m:
@@ -1755,6 +1759,44 @@ def cli_validate(p, rest):
     if r.get("stderr_tail"):
         print(r["stderr_tail"])
     return 1 if (r["error"] or r["disagreeing"]) else 0
+
+
+
+def push_gated(prog):
+    """CBMC: does the push / append entry point refuse to resume the coroutine once err != 0?
+    (True / False / None = not applicable or undecided); harness/C05_pushgate.c"""
+    if prog.key not in ("pkey", "skey", "x509dec", "x509min"):
+        return None
+    src = open(extract_natives(prog)).read()
+    hpath = os.path.join(HARN, "C05_pushgate.c")
+    hk = hashlib.sha1((src + open(hpath).read() + hh(prog.repo)).encode()).hexdigest()[:16]
+    cache = os.path.join(BUILD, "pushgate-%s-%s.json" % (prog.key, hk))
+    if os.path.exists(cache):
+        return json.load(open(cache))
+    wd = tempfile.mkdtemp(prefix="t0pg-", dir=BUILD)
+    try:
+        gb = os.path.join(wd, "pg.gb")
+        cmd = ["goto-cc", "-I" + os.path.join(prog.repo, "inc"), "-I" + os.path.join(prog.repo, "src"), "-I" + HARN, "-I" + HERE,
+               "-I" + gen_dir(prog), "-DVERIF_CBMC=1", "-DC05_KEY_%s=1" % prog.key] + repo_defs(prog.repo) + \
+              ["-o", gb, hpath, os.path.join(HARN, "strmodel.c")]
+        rc, o, e = sh(cmd, timeout=300)
+        res = None
+        if rc == 0:
+            rc, o, e = sh(["cbmc", gb, "--json-ui", "--no-malloc-may-fail", "--unwind", "6", "--unwinding-assertions",
+                           "--drop-unused-functions", "--no-standard-checks"], timeout=300)
+            try:
+                for m in json.loads(o):
+                    if "result" in m:
+                        st = [r.get("status") for r in m["result"] if "not resumed once the decoder has failed" in r.get("description", "")]
+                        if st:
+                            res = all(x == "SUCCESS" for x in st)
+            except Exception:
+                res = None
+        with open(cache, "w") as f:
+            json.dump(res, f)
+        return res
+    finally:
+        shutil.rmtree(wd, ignore_errors=True)
 
 
 def cli_layout(p, rest):
